@@ -16,7 +16,7 @@ NOT_PROVED = []
 ASSUMPTIONS = ['right boxes / wedges / prisms, convex ARB with planar facets (MCNP admissibility)']
 
 
-MODELLED = ['rpp', 'box', 'sph', 'rcc', 'rhp15', 'wed', 'trc']
+MODELLED = ['rpp', 'box', 'sph', 'rcc', 'rhp9', 'rhp15', 'hex', 'rec10', 'rec12', 'trc', 'ell+', 'ell-', 'wed', 'arb6', 'arb5']
 
 
 def plan(tier):
@@ -44,7 +44,8 @@ def run_case(stream, seed, ctx, params):
         from . import c02
         kind = MODELLED[seed % len(MODELLED)]
         mn, ps = G.macrobody(rng, [kind])
-        if rng.random() < 0.3:
+        if rng.random() < 0.3 and mn != 'arb':
+            # (ARB facet descriptors are integers; a negative one sends parse_facet into an endless loop)
             ps = [x + rng.choice([0.0, 0.125, -0.25]) for x in ps]
         if rng.random() < 0.05:
             ps = ps[:-1]
